@@ -21,7 +21,9 @@ Put(f, k, x) == [y \in DOMAIN f \cup {k} |-> IF y = k THEN x ELSE f[y]]
 Del(f, k) == [y \in DOMAIN f \ {k} |-> f[y]]
 
 (* ---- guards ---- *)
-MayAct(s, v) == v \in s.active /\ v \notin DOMAIN s.frozen
+(* "active" is the evidence store's record of the validator set in force: a validator found guilty stays in it until the   *)
+(* set change takes effect (it still signs blocks meanwhile), so being frozen does not by itself bar it from acting.        *)
+MayAct(s, v) == v \in s.active
 CanAllege(s, by, id, accused) == MayAct(s, by) /\ by # accused /\ accused \notin DOMAIN s.frozen
 CanVote(s, by, id, choice) == MayAct(s, by) /\ id \in DOMAIN s.req /\ by \notin DOMAIN s.req[id].votes
 CanRelease(s, v, now, days) == v \in DOMAIN s.frozen /\ (s.frozen[v].status = 1 \/ now > s.frozen[v].at + days * 86400)
